@@ -26,7 +26,7 @@ def material(m):
     if m is None:
         return None
     d = dict(type=type(m).__name__)
-    for key in ('index', 'absorp', 'abbe', 'name', 'reference', 'filename'):
+    for key in ('index', 'absorp', 'abbe', 'name', 'reference', 'filename', 'robust', 'min_wavelength', 'max_wavelength'):
         if hasattr(m, key):
             val = getattr(m, key)
             if callable(val):
